@@ -112,11 +112,12 @@ pub struct StreamRng {
     pub data: Vec<u8>,
     pub pos: usize,
     pub overrun: usize,
+    pub panic_on_exhaust: bool,
 }
 
 impl StreamRng {
     pub fn new(data: Vec<u8>) -> Self {
-        StreamRng { data, pos: 0, overrun: 0 }
+        StreamRng { data, pos: 0, overrun: 0, panic_on_exhaust: false }
     }
     fn nextb(&mut self) -> u8 {
         if self.pos < self.data.len() {
@@ -124,6 +125,9 @@ impl StreamRng {
             self.pos += 1;
             b
         } else {
+            if self.panic_on_exhaust {
+                panic!("bad-op stream-exhausted");
+            }
             self.pos += 1;
             self.overrun += 1;
             0
